@@ -777,6 +777,68 @@ theorem framing_sound_core (d : RespIn) (date next : Bytes) (h : HandlerSane d) 
       · exact framing_errdoc d date next h hm he
       · exact framing_normal d date next h hm (by simpa using hb) (by simpa using he)
 
+theorem nm_CO_UP : Hdrs.sameName nConnection nUpgrade = false := by decide
+theorem nm_CE_UP : Hdrs.sameName nContentEncoding nUpgrade = false := by decide
+theorem nm_CT_UP : Hdrs.sameName nContentType nUpgrade = false := by decide
+theorem nm_WA_UP : Hdrs.sameName nWwwAuthenticate nUpgrade = false := by decide
+
+/-- a response that may have a body but carries neither Content-Length nor Transfer-Encoding (nor is
+    a protocol upgrade) is always followed by connection close — for EVERY descriptor -/
+theorem undelimited_closes (d : RespIn) (date : Bytes) (hm : d.meth ≠ .head)
+    (hb : isBodiless d.status = false) (hnt : ¬ (d.meth = .connect ∧ d.status = 200))
+    (hcl : Hdrs.has (respond d date).hdrs nContentLength = false)
+    (hte : Hdrs.has (respond d date).hdrs nTransferEncoding = false)
+    (hup : Hdrs.has (respond d date).hdrs nUpgrade = false) : (respond d date).keepAlive = false := by
+  have hwp : writePrepare d = wpFraming d (wpStatus d) := by
+    unfold writePrepare; simp [wpHead, hm]
+  have e1 : (respond d date).hdrs = finalHdrs d (writePrepare d) := rfl
+  have e2 : (respond d date).keepAlive = kaAfterLimits d (writePrepare d).keepAlive := rfl
+  rw [e1, finalHdrs_has d _ _ nm_CO_CL nm_CE_CL, hwp] at hcl
+  rw [e1, finalHdrs_has d _ _ nm_CO_TE nm_CE_TE, hwp] at hte
+  rw [e1, finalHdrs_has d _ _ nm_CO_UP nm_CE_UP, hwp] at hup
+  rw [e2, hwp]
+  have hbl := hb
+  simp only [isBodiless, Bool.or_eq_false_iff, decide_eq_false_iff_not] at hbl
+  obtain ⟨⟨h204, h205⟩, h304⟩ := hbl
+  suffices hk : (wpFraming d (wpStatus d)).keepAlive = false by simp [kaAfterLimits, hk]
+  by_cases he : (400 ≤ d.status && d.status < 600 && errdocApplies d) = true
+  · exfalso
+    have hr : (400 ≤ d.status && d.status < 600) = true := by
+      simp only [Bool.and_eq_true] at he ⊢; exact he.1
+    have ha : errdocApplies d = true := by
+      simp only [Bool.and_eq_true] at he; exact he.2
+    rw [wpStatus_err d hr ha] at hcl
+    have hpos := errorPage_pos d.status
+    simp [wpFraming, Hdrs.has_set, nm_CT_CL, nm_CT_TE, errKeep_has, nm_WA_CL, nm_WA_TE, hpos, nm_CL_CL,
+      natToDec_ne_nil] at hcl
+  · rw [wpStatus_normal d hb (by simpa using he)] at hcl hte hup ⊢
+    unfold wpFraming st0 at hcl hte hup ⊢
+    by_cases hfin : d.finished = true
+    · exfalso
+      simp only [hfin, if_true] at hcl hte
+      by_cases h1 : Hdrs.has d.hdrs nContentLength = true
+      · simp [h1] at hcl
+      · by_cases h2 : Hdrs.has d.hdrs nTransferEncoding = true
+        · simp [h1, h2] at hte
+        · by_cases hq : d.queued.length > 0
+          · simp [h1, h2, hq, Hdrs.has_set, nm_CL_CL, natToDec_ne_nil] at hcl
+          · simp [h1, h2, hq, Hdrs.has_set, nm_CL_CL, hm, h204, h304] at hcl
+    · have hfin' : d.finished = false := by simpa using hfin
+      simp only [hfin', Bool.false_eq_true, if_false] at hcl hte hup ⊢
+      by_cases h1 : Hdrs.has d.hdrs nContentLength = true
+      · simp [h1] at hcl
+      · by_cases h2 : Hdrs.has d.hdrs nTransferEncoding = true
+        · simp [h1, h2] at hte
+        · by_cases h3 : Hdrs.has d.hdrs nUpgrade = true
+          · simp [h1, h2, h3] at hup
+          · have hnt' : (d.meth = .connect && d.status = 200) = false := by
+              by_cases a : d.meth = .connect <;> by_cases b : d.status = 200 <;> simp_all
+            by_cases hv : d.ver11 = true
+            · exfalso
+              have hce : (ofString "chunked").isEmpty = false := by decide
+              simp [h1, h2, h3, hnt', hv, Hdrs.has_append _ _ _ _ hce, nm_TE_TE] at hte
+            · simp [h1, h2, h3, hnt', hv]
+
 end framing
 
 /-! ### nothing in the header section can start a new line -/
